@@ -59,7 +59,11 @@ func (o *GenOpts) listLen(t *rapid.T, limit uint64, label string) int {
 			return rapid.IntRange(0, int(limit)).Draw(t, label+"_len")
 		}
 	}
-	return rapid.IntRange(0, o.MaxList).Draw(t, label+"_len")
+	max := o.MaxList
+	if uint64(max) > limit {
+		max = int(limit)
+	}
+	return rapid.IntRange(0, max).Draw(t, label+"_len")
 }
 
 func randBytes(t *rapid.T, n int, label string) []byte {
